@@ -77,7 +77,12 @@ func (r *vfResRun) step(id, name, proto, port string, o vfResOutcome) {
 		addrs = []string{}
 	}
 	atomic.StoreInt32(&r.changes, 0)
-	pm := vfCatch(func() { dynamicHostResolver.addressResolved(name, addrs, err) })
+	// the code under test gets its own copy: what is logged as "the resolution said" must be what the driver produced
+	given := append([]string(nil), addrs...)
+	if addrs != nil && given == nil {
+		given = []string{}
+	}
+	pm := vfCatch(func() { dynamicHostResolver.addressResolved(name, given, err) })
 	after := dynamicHostResolver.GetAddrsOfHost(name)
 	// a notification is in flight iff the resolver's view of the name changed
 	changed := len(before) != len(after)
